@@ -477,6 +477,11 @@ class Concatenator(Group):  # pylint: disable=too-many-public-methods
             if child not in self._children:
                 continue
 
+            if not isinstance(child, (Concatenated, ConcatenatedPropertyGroup)):
+                # data stored on the group itself (comments, files)
+                super().remove_children([child])
+                continue
+
             self.remove_entity(child)
             if child in self._children:
                 self._children.remove(child)
